@@ -105,6 +105,19 @@ class Run:
             return v.run(inputs, options, plan, timeout_ms=timeout_ms)
         obs = P.parallel(run, variants)
         self.obs = obs
+        st = dict(parses=0, matched=0, with_errors=0, no_match=0, budget=0, panic_escaped=0, with_events=0, not_ok_status=0)
+        for pth in obs:
+            with open(pth) as f:
+                for ln in f:
+                    st["parses"] += 1
+                    st["matched"] += '"ok": true' in ln or '"ok":true' in ln
+                    st["with_errors"] += '"errs":[{' in ln or '"errs": [{' in ln
+                    st["no_match"] += '"nomatch":{"is":true' in ln
+                    st["budget"] += '"budget":true' in ln
+                    st["panic_escaped"] += '"escaped":""' not in ln and '"escaped": ""' not in ln
+                    st["with_events"] += '"events":[{' in ln
+                    st["not_ok_status"] += '"status":"ok"' not in ln and '"status": "ok"' not in ln
+        self.stats = st
         gp = os.path.join(P.workdir(), "groups.ndjson")
         dump_groups(groups, gp)
         tcase = dict(inputs=inputs, options=options, lower=lower or [[0, 0]], uclass=uclass or [[0]],
